@@ -38,6 +38,7 @@ type Job struct {
 	Workers    int     `json:"workers"`
 	Note       string  `json:"note,omitempty"`
 	Params     map[string]int64 `json:"params,omitempty"` // concrete harness parameters (zzvrt.Param)
+	SymIdx     bool             `json:"symidx,omitempty"`
 }
 
 type LabelStat struct {
@@ -143,7 +144,7 @@ func newWorld(env *Env, sol *Solver, prefix []int64) *World {
 	w := &World{env: env, sol: sol, prefix: prefix, globals: map[*ssa.Global]*Obj{}, inited: map[*ssa.Package]bool{},
 		reached: map[string]int{}, funcs: map[*ssa.Function]bool{}, reaches: map[string]int{},
 		yielded: make(chan *G), abort: make(chan struct{}), dueMemo: map[[2]int]bool{},
-		shadows: map[string]*shadow{}, vcs: map[interface{}]VC{}, raceSeen: map[string]bool{}, ctrs: map[string]int64{}}
+		shadows: map[string]*shadow{}, vcs: map[interface{}]VC{}, raceSeen: map[string]bool{}, ctrs: map[string]int64{}, cells: map[string]Value{}}
 	t0 := w.fresh("t0", sortBV(64))
 	w.now = BV{w: 64, t: t0}
 	w.addPC(w.tf.bvCmp("ge", w.now, cbv(64, 1), true))
@@ -204,7 +205,7 @@ func explore(env *Env, job Job) *Report {
 	}
 	e2 := *env
 	e2.opts = Options{maxPre: job.Preempt, maxDelay: job.Delays, race: job.Race, stepLimit: job.StepLimit, concLimit: job.ConcLimit,
-		sampleN: job.Samples, maxGo: 12, horizonBit: job.HorizonBit, params: job.Params}
+		sampleN: job.Samples, maxGo: 12, horizonBit: job.HorizonBit, params: job.Params, symIdx: job.SymIdx}
 	env = &e2
 	gstats.sat, gstats.unsat, gstats.unknown, gstats.cacheHits, gstats.nanos, gstats.perBackend = 0, 0, 0, 0, 0, nil
 	var mu sync.Mutex
@@ -232,6 +233,9 @@ func explore(env *Env, job Job) *Report {
 		go func() {
 			defer wg.Done()
 			sol := newSolver(job.Solver, time.Duration(job.QTimeoutS*float64(time.Second)))
+			if job.TimeLimitS > 0 {
+				sol.deadline = deadline.Add(time.Duration(job.QTimeoutS * float64(time.Second)))
+			}
 			defer sol.close()
 			for {
 				mu.Lock()
@@ -287,11 +291,19 @@ func explore(env *Env, job Job) *Report {
 					rep.CutByBound[w.cut]++
 				case strings.HasPrefix(w.end, "panic:"):
 					if w.past() {
-						w.violation("panic", w.end, w.panicWhere, w.currentModel())
+						if cm := w.currentModel(); cm != nil {
+							w.violation("panic", w.end, w.panicWhere, cm)
+						} else {
+							inconcl["panic on a path whose feasibility is unknown: "+w.end]++
+						}
 					}
 				case w.end == "DEADLOCK":
 					if w.past() {
-						w.violation("deadlock", "deadlock: "+w.blockedSummary(), "", w.currentModel())
+						if cm := w.currentModel(); cm != nil {
+							w.violation("deadlock", "deadlock: "+w.blockedSummary(), "", cm)
+						} else {
+							inconcl["deadlock on a path whose feasibility is unknown"]++
+						}
 					}
 				case strings.HasPrefix(w.end, "ENGINE"):
 					inconcl[w.end]++
